@@ -713,3 +713,12 @@ package datalog
 //@ panics if at > len(*t)
 //@ ensures tail: res != nil && fresh(res) && fresh(arr(*res)) && len(*res) == old(len(*t)) - at && (forall j int :: { (*res)[j] } 0 <= j && j < len(*res) ==> (*res)[j] == old((*t)[at + j]))
 //@ ensures head: len(*t) == at && arr(*t) == old(arr(*t)) && off(*t) == old(off(*t)) && cap(*t) == old(cap(*t))
+
+//@ func (t *SymbolTable) Sym(s string) (res Term)
+//@ serves C07 C10
+//@ requires t != nil
+//@ modifies nothing
+//@ loop 0 invariant forall j int :: 0 <= j && j < #i ==> DEFAULT_SYMBOLS[j] != s
+//@ loop 1 invariant forall j int :: 0 <= j && j < #i ==> (*t)[j] != s
+//@ ensures found: res != nil ==> res is String && symValid(t, res.(String)) && symStr(t, res.(String)) == s
+//@ ensures absent: res == nil ==> (forall j int :: 0 <= j && j < 28 ==> DEFAULT_SYMBOLS[j] != s) && (forall j int :: 0 <= j && j < len(*t) ==> (*t)[j] != s)
